@@ -123,7 +123,11 @@ fn check(property: &str, tier: &str) {
             batch.wall_s
         );
         // report at most ten classes, lowest run index first within the class
-        for (class, (run, v)) in batch.violations.iter().take(10) {
+        let mut reported: std::collections::BTreeSet<String> = Default::default();
+        for (class, (run, v)) in batch.violations.iter() {
+            if reported.len() >= 10 {
+                break;
+            }
             if let Some(k) = is_known(&known, v) {
                 let line = format!("KNOWN-FINDING: property={} oracle={} site={} {}", k.property, k.oracle, k.site, k.description);
                 if !known_lines.contains(&line) {
@@ -132,6 +136,10 @@ fn check(property: &str, tier: &str) {
                 continue;
             }
             let (plan, mv, original_steps) = sim.minimise(seed, *run, v);
+            // several detection sites often minimise to the same failure: report it once
+            if !reported.insert(mv.class()) {
+                continue;
+            }
             // the minimised plan must reproduce in this process before it is written
             let again = sim.replay(&plan);
             let reproduced = again.violations.iter().any(|x| x.property == mv.property && x.oracle == mv.oracle);
